@@ -119,6 +119,13 @@ def read_all(unit, store, model, problems, what):
             problems.append(('get-raises', what, i, repr(e)))
             continue
         want = m['value']
+        try:            # the two status reads of the store, where it offers them
+            if hasattr(store, 'is_set') and bool(store.is_set(keyof(i))) != (want is not NS):
+                problems.append(('is_set-disagrees-with-what-the-slot-reads', what, i, repr(store.is_set(keyof(i)))))
+            if hasattr(store, 'is_cleared') and store.is_cleared(keyof(i)):
+                problems.append(('live-slot-reported-as-cleared', what, i))
+        except Exception as e:
+            problems.append(('is_set-or-is_cleared-raises', what, i, repr(e)))
         if want is NS:
             if got is not NOTSET:
                 problems.append(('fresh-slot-not-reading-notset', what, i, repr(got)))
